@@ -156,17 +156,26 @@ pub fn svg(input: &str, out: &str) {
         let mut svgs: Vec<(&str, Option<String>)> = vec![];
         // the same description as a hard state and as a Lennard-Jones state
         match shape {
-            "square" | "kite" => {
-                let radial = if shape == "square" { vec![1.; 4] } else { vec![1., 0.5, 1., 0.5] };
+            "square" | "kite" | "kite2" | "quad" => {
+                let radial = match shape {
+                    "square" => vec![1.; 4],
+                    "kite" => vec![1., 0.5, 1., 0.5],
+                    "kite2" => vec![0.5, 1., 0.5, 1.],
+                    _ => vec![1., 0.5, 0.8, 0.3],
+                };
                 if let Ok(st) = PackedState::from_group(LineShape::from_radial(shape, radial).unwrap(), &g) {
                     svgs.push(("hard", svg_of(&st, &e)));
                     let mut j = serde_json::to_value(&st).unwrap();
                     place(&mut j, &e);
-                    if let Ok(st) = serde_json::from_value::<PackedState<LineShape>>(j) {
-                        json_checked += 1;
-                        if let Err(w) = roundtrip(&st, |s| s.cartesian_positions().collect()) {
-                            failures.push(json!({"what": format!("JSON round trip: {}", w), "state": e}));
+                    match serde_json::from_value::<PackedState<LineShape>>(j) {
+                        Ok(st) => {
+                            json_checked += 1;
+                            if let Err(w) = roundtrip(&st, |s| s.cartesian_positions().collect()) {
+                                failures.push(json!({"what": format!("JSON round trip: {}", w), "state": e}));
+                            }
                         }
+                        // every grid state is a legal state (coordinates on or inside their bounds)
+                        Err(err) => failures.push(json!({"what": format!("a legal state cannot be read from its JSON form: {}", err), "state": e})),
                     }
                 }
             }
@@ -185,11 +194,14 @@ pub fn svg(input: &str, out: &str) {
             svgs.push(("lj", svg_of(&st, &e)));
             let mut j = serde_json::to_value(&st).unwrap();
             place(&mut j, &e);
-            if let Ok(st) = serde_json::from_value::<PotentialState<LJShape2>>(j) {
-                json_checked += 1;
-                if let Err(w) = roundtrip(&st, |s| s.cartesian_positions().collect()) {
-                    failures.push(json!({"what": format!("JSON round trip (LJ): {}", w), "state": e}));
+            match serde_json::from_value::<PotentialState<LJShape2>>(j) {
+                Ok(st) => {
+                    json_checked += 1;
+                    if let Err(w) = roundtrip(&st, |s| s.cartesian_positions().collect()) {
+                        failures.push(json!({"what": format!("JSON round trip (LJ): {}", w), "state": e}));
+                    }
                 }
+                Err(err) => failures.push(json!({"what": format!("a legal LJ state cannot be read from its JSON form: {}", err), "state": e})),
             }
         }
         checked += 1;
@@ -226,7 +238,7 @@ pub fn json_random(out: &str, thorough: bool, seed: u64) {
     let count = if thorough { 20000 } else { 3000 };
     let mut checked = 0usize;
     let mut failures: Vec<Value> = vec![];
-    let special = [0.0, -0.0, 1e-300, 5e-324, 1e300, 0.1, 1. / 3., -0.41443653894765564, 0.49999999999999994, 6.283185307179586];
+    let special = [0.5, -0.5, 0.0, -0.0, 1e-300, 5e-324, 1e300, 0.1, 1. / 3., -0.41443653894765564, 0.49999999999999994, 6.283185307179586];
     for k in 0..count {
         let gname = GROUPS[k % GROUPS.len()];
         let g = group(gname);
@@ -264,7 +276,7 @@ pub fn json_random(out: &str, thorough: bool, seed: u64) {
                     roundtrip(&st, |s| s.cartesian_positions().collect())
                 }))
                 .unwrap_or(Err("panic".into())),
-                Err(_) => continue,
+                Err(err) => Err(format!("cannot be read from JSON: {}", err)),
             }
         } else {
             let st = PotentialState::from_group(LJShape2::from_trimer(0.637556, 120., 1.), &g).unwrap();
@@ -275,7 +287,7 @@ pub fn json_random(out: &str, thorough: bool, seed: u64) {
                     roundtrip(&st, |s| s.cartesian_positions().collect())
                 }))
                 .unwrap_or(Err("panic".into())),
-                Err(_) => continue,
+                Err(err) => Err(format!("cannot be read from JSON: {}", err)),
             }
         };
         checked += 1;
